@@ -55,6 +55,8 @@ def lit(v):
 
 def test_text(t):
     k = t[0]
+    if k == 'null':
+        return 'null'
     if k == 'lit':
         return lit(('a', t[1], t[2]))
     if k in ('lt', 'le', 'gt', 'ge'):
@@ -148,7 +150,9 @@ def av_coq(av):
     out = []
     for t in av:
         k = t[0]
-        if k == 'lit':
+        if k == 'null':
+            out.append('UIv 1 false 1 false')      # the alternative `null` is satisfied by no non-null value: modelled by a test nothing satisfies (the empty interval (1..1))
+        elif k == 'lit':
             out.append('ULit %s %d' % (CS[t[1]], t[2]))
         elif k == 'iv':
             out.append('UIv %d %s %d %s' % (t[1], 'true' if t[2] else 'false', t[3], 'true' if t[4] else 'false'))
@@ -227,10 +231,12 @@ def norm(j):
 
 # ------------------------------------------------------------------ generators
 def avs_for(p):
+    # ('null',): the literal null among the alternatives - for a value that matches no other alternative the test is null, not false, and the value is
+    # still not allowed (seeded change C11_i: only a test that is `false` rejected the value)
     if p == 1:
-        return [None, (('lt', 10),), (('iv', 20, True, 30, False), ('lit', 1, 5), ('ge', 100))]
+        return [None, (('lt', 10),), (('iv', 20, True, 30, False), ('lit', 1, 5), ('ge', 100)), (('iv', 1, True, 10, True), ('null',))]
     if p == 0:
-        return [None, (('lit', 0, 1), ('lit', 0, 2))]
+        return [None, (('lit', 0, 1), ('lit', 0, 2)), (('lit', 0, 1), ('lit', 0, 2), ('null',))]
     if p == 2:
         return [None, (('lit', 2, 1),)]
     return [None, (('le', 10), ('lit', 0, 1), ('lit', p, 2))]
@@ -241,6 +247,8 @@ def test_ok(t, v):
         return False
     p, n = v[1], v[2]
     k = t[0]
+    if k == 'null':
+        return False
     if k == 'lit':
         return p == t[1] and n == t[2]
     if p != 1:
@@ -538,6 +546,33 @@ def classify(res, v):
     return 'other'
 
 
+def null_first_witness(ctx):
+    """Known finding null-alternative-first (the root cause is the one of C03 null-literal-entry: eval_in_list answers null at a null item instead of going on
+    to the next alternative): allowed values `null, 5` reject the conforming value 5; with the null LAST (`5, null`) the value passes, and the generated
+    types only have it last.  The witness runs on every run; when the code changes it is a violation unless the value now passes."""
+    xml = (XHEAD + '<itemDefinition name="tN"><typeRef>number</typeRef><allowedValues><text>null, 5</text></allowedValues></itemDefinition>'
+           '<itemDefinition name="tL"><typeRef>number</typeRef><allowedValues><text>5, null</text></allowedValues></itemDefinition>'
+           '<inputData name="x" id="i1"><variable name="x" typeRef="tN"/></inputData><inputData name="y" id="i2"><variable name="y" typeRef="tL"/></inputData>'
+           '<decision name="e" id="e1"><variable name="e"/><informationRequirement><requiredInput href="#i1"/></informationRequirement><informationRequirement><requiredInput href="#i2"/></informationRequirement>'
+           '<literalExpression><text>[x, y]</text></literalExpression></decision></definitions>')
+    ans = ctx.run_impl('model', [{'xml': xml, 'calls': [['e', '{x: 5, y: 5}'], ['e', '{x: 6, y: 6}']]}])[0]
+    ctx.evaluations += 1
+    case = {'allowed_values': ['null, 5', '5, null'], 'inputs': ['{x: 5, y: 5}', '{x: 6, y: 6}'], 'xml': xml}
+    if not isinstance(ans, dict) or ans.get('build') != 'ok' or len(ans.get('results', [])) != 2:
+        ctx.corr_broken('witness model of null-alternative-first not evaluated', case, ans, None)
+        return
+    got = [norm(r.get('v')) if 'v' in r else ('?', json.dumps(r)) for r in ans['results']]
+    five, nul = ('a', 1, 5), None
+    if got[1] != ('l', (nul, nul)):
+        ctx.violation('allowed values `null, 5` / `5, null`: the value 6 reached the decision as %s, the property prescribes [null, null]' % json.dumps(ans['results'][1]), case, impl=ans)
+    elif got[0] == ('l', (five, five)):
+        pass          # repaired: both orders let the conforming value through
+    elif got[0] == ('l', (nul, five)) and ctx.known('null-alternative-first', case):
+        pass
+    else:
+        ctx.violation('allowed values `null, 5` / `5, null`: the conforming value 5 reached the decision as %s, the property prescribes [5, 5]' % json.dumps(ans['results'][0]), case, impl=ans)
+
+
 def run_models(ctx, models, tagbase='c'):
     """Runs the documents through the implementation and the model; returns a flat list of case records."""
     xmls = [model_xml(m, ctx.rng) for m in models]
@@ -685,6 +720,7 @@ def run(ctx):
     xmls, recs = run_models(ctx, models)
     stats = {}
     judge(ctx, models, xmls, recs, stats)
+    null_first_witness(ctx)
     # idempotence on the implementation itself: what reached the decision, supplied again, reaches it unchanged
     again = {}
     for rec in recs:
@@ -724,7 +760,8 @@ def run(ctx):
              'non-trivial = a component-wise nulled result, a conforming structured value, or a wrap/unwrap coercion' % len(leaf_types()),
         extra_cov={'exhaustive': False, 'documents': len(models), 'histogram': stats},
         assumptions=['names a..e / t<n> stand for all names; payloads are small naturals (numbers) or identities (other simple types)',
-                     'allowed values are drawn from the modelled unary-test language: literals, < <= > >=, intervals over numbers, comma-separated',
+                     'allowed values are drawn from the modelled unary-test language: literals, < <= > >=, intervals over numbers, comma-separated; the alternative `null` '
+                     '(a test whose answer is null, not false, for a non-null value) is modelled by a test that nothing satisfies',
                      'component lists have unique names; reference chains are acyclic (cycles are C12)',
                      'interpretive choices of the Spec: a context lacking a declared component is null as a whole; undeclared entries of a component value are dropped; '
                      'an item of a collection of a referenced type is nulled on its own while a foreign item of a collection of a simple type nulls the list (both as in the code; the property fixes only the component case); '
